@@ -9,6 +9,8 @@ P=/verif/seeded/${PID}_$N/patch.diff
 [ -f "$P" ] || P=/tmp/wt_$PID/seed_out/$N/patch.diff
 [ -f "$P" ] || { echo "no patch"; exit 2; }
 mkdir -p /tmp/iso
+# one user at a time (agents share /tmp/iso)
+exec 9>/tmp/iso.lock; flock 9
 HEAD=$(git -C /repo rev-parse HEAD)
 if [ ! -d /tmp/iso/repo ]; then git -C /repo worktree add --detach /tmp/iso/repo $HEAD >/dev/null 2>&1 || exit 3; fi
 cd /tmp/iso/repo && git checkout -q -- . && git checkout -q --detach $HEAD || exit 3
